@@ -91,7 +91,14 @@ class SsbScriptSsbCompiler:
         parser.addParseListener(compiler_listener)
 
         # Start Parsing
-        parser.start()
+        try:
+            parser.start()
+        except Exception:
+            # The compiler listener runs while the parser is still at work. After a syntax error it is handed
+            # incomplete contexts and fails in arbitrary ways; the syntax error is what has to be reported.
+            if len(error_listener.syntax_errors) > 0:
+                raise ParseError(error_listener.syntax_errors[0])
+            raise
 
         # Look for errors
         if len(error_listener.syntax_errors) > 0:
